@@ -27,7 +27,6 @@ LEAN = VERIF / "lean"
 REPO = Path(os.environ.get("VERIF_REPO", "/repo"))
 EVIDENCE = VERIF / "evidence"
 REPLAYS = VERIF / "replays"
-DRIVER = LEAN / ".lake" / "build" / "bin" / "ovdriver"
 ALLOWED_AXIOMS = {"propext", "Classical.choice", "Quot.sound"}
 FORBIDDEN_RE = re.compile(
     r"\bsorry\b|\badmit\b|^\s*axiom\s|native_decide|bv_decide|implemented_by|\bunsafe\s|maxHeartbeats\s+0\b"
@@ -66,6 +65,8 @@ def regen_root() -> None:
         rel = p.relative_to(LEAN).with_suffix("")
         if rel.parts[1] == "Audit":
             continue
+        if rel.parts[1] == "Drivers" and rel.parts[-1] != "Loop":
+            continue  # each driver file has its own `main`; built as its own executable
         mods.append(".".join(rel.parts))
     text = "".join(f"import {m}\n" for m in mods)
     root = LEAN / "OV.lean"
@@ -253,10 +254,13 @@ def leanchecker(prop_modules: Sequence[str], timeout: int = 3600) -> tuple[bool,
 class Driver:
     """Pipe to the compiled Lean model driver (line protocol, one line in, one line out)."""
 
-    def __init__(self) -> None:
-        ok, log = lake_build(["ovdriver"])
-        if not ok or not DRIVER.exists():
-            raise Infra("cannot build ovdriver:\n" + log[-3000:])
+    def __init__(self, prop: str) -> None:
+        self.prop = prop.upper()
+        exe = f"drv_{prop.lower()}"
+        self.path = LEAN / ".lake" / "build" / "bin" / exe
+        ok, log = lake_build([exe])
+        if not ok or not self.path.exists():
+            raise Infra(f"cannot build {exe}:\n" + log[-3000:])
         self.lines = 0
 
     def ask(self, lines: Sequence[str], timeout: int = 600) -> list[str]:
@@ -267,8 +271,8 @@ class Driver:
                 raise Infra("newline inside a driver line")
         try:
             p = subprocess.run(
-                [str(DRIVER)],
-                input="\n".join(lines) + "\n",
+                [str(self.path)],
+                input="".join(f"{self.prop} {ln}\n" for ln in lines),
                 capture_output=True,
                 text=True,
                 timeout=timeout,
@@ -290,10 +294,16 @@ class Driver:
 
 
 def load_known_findings() -> list[dict]:
+    """known_findings.json (+ fragments known_findings.d/*.json while the build is in progress)."""
+    out: list[dict] = []
     p = VERIF / "known_findings.json"
-    if not p.exists():
-        return []
-    return json.loads(p.read_text()).get("findings", [])
+    if p.exists():
+        out += json.loads(p.read_text()).get("findings", [])
+    d = VERIF / "known_findings.d"
+    if d.is_dir():
+        for f in sorted(d.glob("*.json")):
+            out += json.loads(f.read_text()).get("findings", [])
+    return out
 
 
 class Run:
